@@ -605,6 +605,13 @@ class _Inliner(object):
                 b = strip_casts(out['e'])
                 if b.get('k') == 'un' and b.get('op') == '&':
                     return b['e']
+            if k == 'call' and not out.get('callee'):
+                # a call through a function-pointer parameter for which this call site names the function: a direct call
+                f_ = strip_casts(out['fn'])
+                while f_.get('k') == 'un' and f_.get('op') in ('*', '&'):
+                    f_ = strip_casts(f_['e'])
+                if f_.get('k') == 'ref' and f_.get('dk') == 'fn':
+                    out['callee'] = f_['n']
             return out
         body_in = list(H.body.get('body', []))
         body = []
